@@ -4,6 +4,7 @@ cd "$(dirname "$0")" || exit 2
 export GOFLAGS=-mod=mod GOPROXY=off GOSUMDB=off GOTOOLCHAIN=local
 mkdir -p build evidence replays
 cp /repo/go.sum harness/go.sum 2>/dev/null
+python3 -c "import sys; sys.path.insert(0, \".\"); from vf import core; core.gen_recvisitor(\"harness\")" || exit 1
 (cd harness && go build -tags verif -o ../build/worker ./cmd/worker) || exit 1
 (cd harness && go build -race -tags verif -o ../build/worker-race ./cmd/worker) || exit 1
 java -cp /opt/veriftools/tla/tla2tools.jar tlc2.TLC -h >/dev/null 2>&1
